@@ -111,6 +111,53 @@ pub fn run(ctx: &mut Ctx) {
             }
         }
     }
+    // ---- replayed HMACs: a genuine sealed message whose integrity attribute is moved behind forged
+    //      attributes, with an ordinary attribute carrying the same HMAC bytes left in its place; and
+    //      forged attributes inserted before a genuine integrity attribute.  The parser accepts these;
+    //      validation must not, or exposed attributes lie outside what the validated HMAC covers.
+    {
+        let nr = ctx.n(16_000, 160_000);
+        let mut rng = ctx.rng("replays", 0);
+        for _ in 0..nr {
+            let tid = gen_tid(&mut rng);
+            let nord = 1 + rng.usize(4);
+            let tlvs: Vec<Tlv> = (0..nord).map(|_| gen_ordinary_tlv(&mut rng, &tid)).collect();
+            let creds = gen_creds_small(&mut rng);
+            let first = if rng.chance(1, 2) { Seal::Sha1 } else { Seal::Sha256(*rng.pick(&[16usize, 20, 32])) };
+            let g = GenMsg { class: rng.below(4) as u8, method: gen_method(&mut rng), tid, tlvs, seals: vec![first], creds: creds.clone() };
+            let buf = build_msg(&g);
+            let rp = ref_parse(&buf);
+            let Some(a) = rp.attrs.last().filter(|a| a.ty == MI || a.ty == MI256).cloned() else { continue };
+            if !rp.accepted() {
+                continue;
+            }
+            let h = buf[a.off + 4..a.off + 4 + a.len].to_vec();
+            let o = Opts { creds: vec![creds.clone()], police: vec![], deep: false, typed: false };
+            for variant in 0..3 {
+                let mut m = buf[..a.off].to_vec();
+                match variant {
+                    0 => push_tlv(&mut m, &Tlv::new(0x7f5a, h.clone())), // same bytes, same offset, ordinary type
+                    1 => push_tlv(&mut m, &Tlv::new(0x8055, h.clone())),
+                    _ => {}
+                }
+                push_tlv(&mut m, &gen_ordinary_tlv(&mut rng, &tid)); // the forged attribute
+                push_tlv(&mut m, &Tlv::new(a.ty, h.clone()));
+                if rng.chance(1, 3) {
+                    let l = m.len() - 20;
+                    set_len(&mut m, l);
+                    seal(&mut m, Seal::Fingerprint, &[]);
+                }
+                let l = m.len() - 20;
+                if l > 0xffff {
+                    continue;
+                }
+                set_len(&mut m, l);
+                check_buffer(ctx, &m, &o);
+                ctx.eval();
+                ctx.count("hmac-replays");
+            }
+        }
+    }
     // ---- grammar stream + skeletons (mutants included: accepted ones must follow the rule too)
     let n = ctx.n(600_000, 8_000_000);
     grammar_stream(ctx, &cfg, n, 4);
@@ -118,6 +165,7 @@ pub fn run(ctx: &mut Ctx) {
     ctx.require("tail-accepted", 1_000);
     ctx.require("tail-rejected", 1_000);
     ctx.require("tail-replacement", 500);
+    ctx.require("hmac-replays", 5_000);
     ctx.require("validate-ok", 500);
 }
 
